@@ -14,7 +14,7 @@ CODE_OF_ERR = {v: k for k, v in ERR_CODES.items()}
 
 
 class Env:
-    """4 nodes attached to the IR owning the CFG, 1 attached to another IR, 2 detached (a proxy and a code block)"""
+    """4 nodes attached to the IR owning the CFG, 1 attached to another IR, 2 detached (a proxy and a code block), 2 detached proxies that share a UUID with another proxy"""
 
     def __init__(self, g):
         self.g = g
@@ -29,6 +29,10 @@ class Env:
         self.nodes = [g.CodeBlock(size=1, offset=0, byte_interval=bi), g.CodeBlock(size=1, offset=4, byte_interval=bi),
                       g.ProxyBlock(module=m), g.CodeBlock(size=2, offset=8, byte_interval=bi),
                       g.CodeBlock(size=1, offset=0, byte_interval=bi2), g.ProxyBlock(), g.CodeBlock(size=1, offset=2)]
+        # nodes are compared by IDENTITY: two more proxies, distinct objects carrying the UUID of the detached proxy (6) and of the
+        # attached one (3) -- e.g. the same external block seen through two loads.  They stay detached (MOVABLE excludes them).
+        self.nodes += [g.ProxyBlock(uuid=self.nodes[5].uuid), g.ProxyBlock(uuid=self.nodes[2].uuid)]
+        self.MOVABLE = 7
         self.m_here, self.m_other, self.bi_here, self.bi_other = m, m2, bi, bi2
         self.num = {id(n): i + 1 for i, n in enumerate(self.nodes)}
         T = g.Edge.Type
@@ -54,8 +58,8 @@ def rand_edge(rng, pool):
     # a small pool of endpoints and labels makes re-adding, parallel edges and self-loops frequent
     if pool and rng.random() < 0.5:
         return rng.choice(pool)
-    s = rng.choice([1, 1, 2, 3, 4, 5, 6, 7])
-    d = s if rng.random() < 0.15 else rng.choice([1, 2, 2, 3, 4, 5, 6, 7])
+    s = rng.choice([1, 1, 2, 3, 4, 5, 6, 7, 8, 6, 9, 3])
+    d = s if rng.random() < 0.15 else rng.choice([1, 2, 2, 3, 4, 5, 6, 7, 8, 6, 9])
     return (s, d, rng.choice([0, 0, 1, 2, 3, 4, 5, 6, 7, 8]))
 
 
@@ -136,7 +140,7 @@ def run_history(ctx, g, rng, length):
     for step in range(length):
         if rng.random() < 0.12:
             # containment changes under the CFG: a node moves to the other IR, is detached, or comes back (the edge set is untouched)
-            k = rng.randrange(len(env.nodes))
+            k = rng.randrange(env.MOVABLE)
             nd = env.nodes[k]
             where = rng.choice(["here", "other", "none"])
             if isinstance(nd, g.ProxyBlock):
@@ -401,7 +405,7 @@ def run(ctx):
                 break
     ctx.cov["histories"] = nh
     ctx.cov["traces_validated_against_impl"] = nh
-    ctx.cov["rule"] = ("random histories of %d set operations (add, discard, remove, pop, clear, update, |=, &=, -=, ^= with plain sets, CFGs, lists and one-shot iterators as operands) over 6 nodes "
+    ctx.cov["rule"] = ("random histories of %d set operations (add, discard, remove, pop, clear, update, |=, &=, -=, ^= with plain sets, CFGs, lists and one-shot iterators as operands) over 9 nodes (two of them proxies sharing a UUID with another proxy) "
                        "(4 attached to the CFG's IR, 1 to another IR, 1 detached) x 9 labels incl. None and the all-default label, endpoints/labels drawn from a small pool so that "
                        "re-adding, parallel edges and self-loops are frequent; after every operation len/iteration, and on 40%% of the steps membership, comparisons and all adjacency "
                        "views; one evaluation = one history" % ln)
